@@ -541,9 +541,11 @@ def init(table, reload=False):
     """
     if 'neutron' in table.properties and not reload:
         return
-    table.properties.append('neutron')
     assert ('density' in table.properties and 'mass' in table.properties), \
         "Neutron table requires mass and density properties"
+    # Mark the table as loaded only once the request is accepted, so that
+    # init can be called again after mass and density have been loaded.
+    table.properties.append('neutron')
 
     # The class-level defaults assigned below replace the delayed-load
     # property through which the public table finds its neutron data, so
